@@ -32,6 +32,7 @@ def epsilon_tensor(i, j, k):
     elem : int
         Element (i,j,k) of the epsilon tensor of rank 3
     """
+    i, j, k = [int(x) if isinstance(x, np.integer) else x for x in (i, j, k)]
     test_set = set((i, j, k))
     if not (test_set <= set((1, 2, 3)) or test_set <= set((0, 1, 2))):
         raise ValueError("Unexpected input", i, j, k)
@@ -50,6 +51,7 @@ def epsilon_tensor_rank4(i, j, k, o):
     elem : int
         Element (i,j,k,o) of the epsilon tensor of rank 4
     """
+    i, j, k, o = [int(x) if isinstance(x, np.integer) else x for x in (i, j, k, o)]
     test_set = set((i, j, k, o))
     if not (test_set <= set((1, 2, 3, 4)) or test_set <= set((0, 1, 2, 3))):
         raise ValueError("Unexpected input", i, j, k, o)
